@@ -5,7 +5,10 @@ over heaps of scopes with chains of any depth; a transition system with one RW-m
 atomic actions are the critical sections of the Go methods: lock_exclusive, no_lost_update,
 get_or_create_once over all schedules and any number of threads) + the structural tie
 lean/Goat/Tie/C13 (go/ast skeleton of every method of DataScope/DataChildScope/DataLocker, compared
-with the model's assumptions by `decide`).
+with the model's assumptions by `decide`; and the get-or-create skeleton of EVERY function of the
+repository that takes a data locker — tasks.Unit.FromScope, envs.Unit.Envs, waits.WaitManager.ForScope —
+compared with the spellings of the idiom that `runSkeleton` reads as the program of get_or_create_once:
+tie_<service>_get_or_create, tie_idiom_users, tie_services_run + get_or_create_once_services).
 
 Correspondence: harness/cmd/datascope drives the real datascope.New/NewChild/LockData on generated
 histories (scope forests of depth <= 5, key pool of 3, nil values, lockers, nested lockers, use after
@@ -17,6 +20,7 @@ plain traffic, sentinel sections, "a call returned while the lock was held", get
 tasks.Unit.FromScope / envs.Unit.Envs / waits.WaitManager.ForScope from 2..64 goroutines; the same
 under the race detector.
 """
+import concurrent.futures
 import glob
 import os
 import re
@@ -32,17 +36,30 @@ META = dict(
              "(induction on the chain), and over ALL schedules of any number of threads of a transition system whose "
              "atomic actions are the critical sections of the Go methods: lock_exclusive (nothing of another thread "
              "touches a scope between LockData and Commit), no_lost_update (n x k locked increments, with plain "
-             "traffic, end at n*k; the sections never deadlock and every execution is finite), get_or_create_once (all callers obtain one instance).  Model tied to /repo on "
-             "every run by a differential over random histories (including which calls block) and by a go/ast "
-             "skeleton of each method checked against the model's assumptions inside Lean.",
+             "traffic, end at n*k; the sections never deadlock and every execution is finite), get_or_create_once (all callers obtain one instance), "
+             "get_or_create_once_services (the same for any number of goroutines running any mix of the code shapes of the "
+             "three services, read as model programs by the executable runSkeleton).  Model tied to /repo on "
+             "every run by a differential over random histories (including which calls block), by a go/ast "
+             "skeleton of each datascope method checked against the model's assumptions inside Lean, and by the "
+             "get-or-create skeleton of every function of the repository that mentions LockData (lock, read under the lock, "
+             "nil test of that read, create, store under the same key, release exactly once on every return path, no use of "
+             "the scope itself) checked by `decide` against the spellings runSkeleton reads; the list of such functions "
+             "and the list of plain writers of the service keys are themselves facts.",
         design_ref="DESIGN.md 3 C13"),
     level_note="Trusted: Lean kernel (axioms propext/Classical.choice/Quot.sound only); sync.RWMutex is a reader-writer "
                "lock and a critical section without blocking calls is one atomic action; the hand-written model's "
                "correspondence to /repo (differential + go/ast skeleton, both run every time); Go map semantics as "
-               "modelled; the three services are covered by the oracle (real code, 2..64 goroutines) and by the "
-               "idiom's theorem, not by a model of their own.",
+               "modelled; the three services are covered by the oracle (real code, 2..64 goroutines) and by "
+               "get_or_create_once_services through the syntactic tie of their bodies to the idiom (tie_*_get_or_create, "
+               "tie_idiom_users, tie_services_run): trusted there are the extractor's reading of a function body "
+               "(harness/cmd/datascope/facts.go: locals numbered by first appearance, shadowing and aliasing of the locker "
+               "not tracked beyond `lockerEscapes`), that a constructor called under the lock does not use the scope "
+               "(checked one call deep: it calls no method on the parameter that receives the scope), and the theorem's "
+               "hypothesis that nobody writes the service key with a plain SetValue meanwhile (the plain writers "
+               "tasks.Unit.BindScope / Clear / TaskManager.Create are listed by tie_key_plain_writers, not covered).",
     technique="Lean 4 proof (induction on chains; invariants over a labelled transition system, all schedules) + "
-              "differential correspondence with blocking probes + go/ast structural tie + concurrent oracle (-race)",
+              "differential correspondence with blocking probes + go/ast structural tie (datascope methods and the "
+              "get-or-create skeleton of every LockData user) + concurrent oracle (-race)",
 )
 
 TIE = "Goat.Tie.C13.Check"
@@ -85,8 +102,14 @@ def _run_model(ctx, model, ops, tag):
     return res
 
 
+MAX_CASES_PER_PROCESS = 600
+
+
 def _run_impl(ctx, go, hops, tag, shards=1, fast=False):
-    """run the hinted ops on the real code, split at `reset` boundaries into parallel shards"""
+    """run the hinted ops on the real code, split at `reset` boundaries into chunks of at most
+    MAX_CASES_PER_PROCESS cases, `shards` driver processes at a time.  (The driver decides "this probe is
+    blocked" from a dump of all goroutine stacks; probes left blocked on the scopes of finished cases stay in
+    the process, so one long-lived process gets slower with every case: 1000 cases 16 s, 12000 cases 1600 s.)"""
     cases, cur = [], []
     for l in hops:
         if l.startswith("reset") and cur:
@@ -96,33 +119,43 @@ def _run_impl(ctx, go, hops, tag, shards=1, fast=False):
     if cur:
         cases.append(cur)
     shards = max(1, min(shards, len(cases)))
-    per = (len(cases) + shards - 1) // shards
-    procs = []
+    per = min((len(cases) + shards - 1) // shards, MAX_CASES_PER_PROCESS)
+    chunks = [[l for c in cases[i:i + per] for l in c] for i in range(0, len(cases), per)]
     env = ctx.goenv()
     env.setdefault("GOMEMLIMIT", "4GiB")
     if fast:
         env["DS_MUSTFINISH_MS"] = "1500"   # only while minimising an already failing case
-    for i in range(shards):
-        part = [l for c in cases[i * per:(i + 1) * per] for l in c]
-        if not part:
-            continue
+    results = [None] * len(chunks)
+    timed_out = []
+
+    def work(i):
+        part = chunks[i]
         ip, op = ctx.path("%s.%d.hops" % (tag, i)), ctx.path("%s.%d.impl" % (tag, i))
         open(ip, "w").write("\n".join(part) + "\n")
-        procs.append((subprocess.Popen([go, "drive"], stdin=open(ip, "rb"), stdout=open(op, "wb"),
-                                       stderr=subprocess.PIPE, env=env), op, len(part)))
-    res = []
-    for p, op, n in procs:
-        try:
-            _, err = p.communicate(timeout=1800)
-        except subprocess.TimeoutExpired:
-            p.kill()
-            ctx.fatal("implementation driver timed out")
+        with open(ip, "rb") as fin, open(op, "wb") as fout:
+            p = subprocess.Popen([go, "drive"], stdin=fin, stdout=fout, stderr=subprocess.PIPE, env=env)
+            try:
+                _, err = p.communicate(timeout=1800)
+            except subprocess.TimeoutExpired:
+                p.kill()
+                p.communicate()
+                timed_out.append(i)
+                return
         got = [l.rstrip("\n") for l in open(op)]
+        n = len(part)
         if p.returncode != 0 or len(got) != n:
             # a crash of the process (e.g. a Go `fatal error`) is a result, not an infrastructure failure
             got += ["crash rc=%s %s" % (p.returncode, err.decode("utf-8", "replace").strip().split("\n")[0][:120])] * (n - len(got))
-        res += got
-    return res
+        results[i] = got
+        if len(chunks) > shards:      # many chunks: do not keep them all on disk
+            os.remove(ip)
+            os.remove(op)
+
+    with concurrent.futures.ThreadPoolExecutor(max_workers=shards) as pool:
+        list(pool.map(work, range(len(chunks))))
+    if timed_out:
+        ctx.fatal("implementation driver timed out")
+    return [l for got in results for l in got]
 
 
 def _pair(ctx, go, model, ops, tag, shards=1, fast=False):
@@ -171,6 +204,29 @@ def _write_extracted(ctx, go):
     return out
 
 
+def _tie_obligations(ctx, go):
+    """regenerate Extracted.lean from the repository under test and check the tie module.  Another C13 run on a
+    different tree (a mutant) may rewrite the shared file while we build: build again until what was built is ours."""
+    failed = []
+    for attempt in range(6):
+        mine = _write_extracted(ctx, go)
+        n0 = len(ctx.obligations)
+        failed = ctx.lean_obligations(props_module=TIE)
+        if open(EXTRACTED).read() == mine:
+            break
+        ctx.log("Extracted.lean was rewritten by another run during the build: again")
+        del ctx.obligations[n0:]
+        time.sleep(1 + attempt)
+    else:
+        ctx.fatal("Goat/Tie/C13/Extracted.lean keeps being rewritten by another run")
+    rc, out = ctx.capture([go, "users", ctx.repo])
+    if rc != 0:
+        ctx.fatal("idiom user listing failed: " + out[-500:])
+    ctx.extra["idiom_users"] = [l for l in out.split("\n") if l.startswith(("user ", "not-a-user "))]
+    ctx.extra["service_key_plain_writers"] = [l.split(" ", 1)[1] for l in out.split("\n") if l.startswith("plain-writer ")]
+    return failed
+
+
 def _oracle(ctx, binary, n, tag, race=False):
     out = ctx.path(tag + ".out")
     env = {"GORACE": "halt_on_error=0 exitcode=0"} if race else None
@@ -205,11 +261,15 @@ def _oracle(ctx, binary, n, tag, race=False):
 # ----------------------------------------------------------------------------- the check
 def run(ctx):
     go = ctx.build_go("datascope")
-    _write_extracted(ctx, go)
     # two builds, so that a broken structural tie is reported by the name of its tie_* theorem and does not
     # drag the (unchanged) property theorems with it; the second call returns all failures so far
+    # (Props/C13 imports the hand-written Tie/C13/{Tok,Idiom,Expected} only, never the generated Extracted)
     ctx.lean_obligations()
-    failed = ctx.lean_obligations(props_module=TIE)
+    failed = _tie_obligations(ctx, go)
+    # the theorems that fail themselves first, then those that merely share a module with one
+    failed = sorted(failed, key=lambda o: not o["reason"].startswith("line "))
+    direct = [o for o in failed if o["reason"].startswith("line ")] or failed
+    ob_notes = ["obligation no longer checks: %s (%s)" % (o["name"], o["reason"][:300]) for o in direct[:8]]
     ctx.checker_cmd = ("cd /verif/lean && lake build Goat.Props.C13 %s && lake env lean <generated audit: "
                        "#print axioms for every theorem of both modules>" % TIE)
     model = ctx.build_model("m_datascope")
@@ -300,7 +360,7 @@ def run(ctx):
         ctx.violation("impl-vs-spec", "clause '%s' of the property fails on the implementation: %s" % (
             parts[1], parts[2] if len(parts) > 2 else ""),
             lines=["oracle %d seed %d%s" % (n_or if f in ofails else ctx.pick(40, 1200), ctx.seed, "" if f in ofails else " race")],
-            annotations=["oracle: " + f], concrete=True)
+            annotations=["oracle: " + f] + ob_notes, concrete=True)
     for b in races[:2]:
         concrete_found = True
         ctx.violation("impl-vs-spec", "the race detector reports an unsynchronised access inside datascope while the oracle's "
@@ -308,7 +368,15 @@ def run(ctx):
                       lines=["oracle %d seed %d race" % (ctx.pick(40, 1200), ctx.seed)],
                       annotations=["race: " + l for l in b.split("\n")[:24]], concrete=True)
     if failed:
+        nv = len(ctx.violations)
         ctx.obligation_violations(failed, searcher=lambda: concrete_found)
+        for v in ctx.violations[nv:]:     # no input found: say what the extractor saw, next to the theorem names
+            if v["kind"] == "obligation":
+                with open(v["replay"], "a") as h:
+                    for l in ctx.extra.get("idiom_users", []):
+                        h.write("#! extracted: %s\n" % l)
+                    for l in ctx.extra.get("service_key_plain_writers", []):
+                        h.write("#! extracted: plain-writer %s\n" % l)
     if not ctx.quick():
         ctx.leanchecker(["Goat.Props.C13", TIE])
         if any(not o["ok"] for o in ctx.obligations) and not failed:
@@ -316,10 +384,13 @@ def run(ctx):
     ctx.assumptions += [
         "sync.RWMutex is a reader-writer lock; a critical section that contains no blocking call is one atomic action",
         "a locker is used by the goroutine that opened it (the services do so); lockers are committed innermost first in the transition system",
-        "get-or-create: no other goroutine writes the service's key on the scope or its ancestors while the callers run",
+        "get-or-create: no other goroutine writes the service's key on the scope or its ancestors while the callers run "
+        "(the functions that do write a service key without a locker are listed in coverage.service_key_plain_writers)",
+        "get-or-create: the constructor called under the lock does not use the scope's data (it would wait for the caller's own lock)",
     ]
     ctx.trusted_base += [
         "go/ast skeleton extractor (harness/cmd/datascope facts) and the `bracketed` reading of it",
+        "the extractor's reading of the LockData users' bodies as ITok lists, and runSkeleton's reading of those as model programs",
         "which calls block is decided by the model in a first pass and used by the Go driver only to know what to wait for",
         "Go race detector (supporting evidence only)",
     ]
@@ -333,6 +404,19 @@ def run(ctx):
 def replay(ctx, path):
     ops = lib.replay_ops(path)
     go = ctx.build_go("datascope")
+    if not ops and "# kind: obligation" in open(path).read():
+        # a theorem or a tie_* theorem did not check: regenerate the facts from the tree and check both modules again
+        ctx.lean_obligations()
+        failed = _tie_obligations(ctx, go)
+        direct = [o for o in failed if o["reason"].startswith("line ")]
+        for o in direct or failed:
+            print("obligation", o["name"], "FAILS:", o["reason"][:300])
+        if direct and len(failed) > len(direct):
+            print("(%d further theorems of the same module are unchecked because the module does not compile)" % (len(failed) - len(direct)))
+        for l in ctx.extra.get("idiom_users", []):
+            print("extracted:", l)
+        print("replay:", "still failing" if failed else "all obligations check")
+        return 1 if failed else 0
     if ops and ops[0].startswith("oracle"):
         f = ops[0].split()
         n, seed, race = int(f[1]), f[3] if len(f) > 3 else "1", "race" in f
